@@ -196,3 +196,144 @@ pub fn cmd_rt(args: &crate::Args) -> String {
     };
     format!("ok print={} reparse={} fix={}", hex(p1.as_bytes()), reparse, fix)
 }
+
+// ---- `acc`: every node of a parsed document looked at through the public read API only ------
+// (Item / Value type_name, is_x, as_x, as_table_like, Item::get by key / index / String / &T,
+//  Array::get / len, InlineTable::get, doc["k"]); same format as Model/Accessors.v acc_doc.
+fn bit(b: bool) -> char {
+    if b { '1' } else { '0' }
+}
+fn us(s: &str) -> String {
+    s.replace(' ', "_")
+}
+fn plus_join(l: Vec<String>) -> String {
+    if l.is_empty() { "-".into() } else { l.join("+") }
+}
+fn show_tn(o: Option<&str>) -> String {
+    match o {
+        Some(t) => us(t),
+        None => "NONE".into(),
+    }
+}
+
+fn value_head(v: &Value) -> String {
+    let flags: String = [v.is_str(), v.is_integer(), v.is_float(), v.is_bool(), v.is_datetime(), v.is_array(), v.is_inline_table()]
+        .iter().map(|b| bit(*b)).collect();
+    let mut pl = Vec::new();
+    if let Some(s) = v.as_str() { pl.push(format!("s:{}", hex(s.as_bytes()))); }
+    if let Some(i) = v.as_integer() { pl.push(format!("i:{i}")); }
+    if let Some(f) = v.as_float() { pl.push(show_f64(f)); }
+    if let Some(b) = v.as_bool() { pl.push(format!("b:{b}")); }
+    if let Some(d) = v.as_datetime() { pl.push(show_datetime(d)); }
+    if let Some(a) = v.as_array() { pl.push(format!("n:{}", a.len())); }
+    format!("{}/{}/{}", us(v.type_name()), flags, plus_join(pl))
+}
+
+fn item_head(it: &Item) -> String {
+    let flags: String = [
+        it.is_none(), it.is_value(), it.is_table(), it.is_array_of_tables(), it.is_table_like(),
+        it.is_str(), it.is_integer(), it.is_float(), it.is_bool(), it.is_datetime(), it.is_array(), it.is_inline_table(),
+    ].iter().map(|b| bit(*b)).collect();
+    let mut pl = Vec::new();
+    if let Some(s) = it.as_str() { pl.push(format!("s:{}", hex(s.as_bytes()))); }
+    if let Some(i) = it.as_integer() { pl.push(format!("i:{i}")); }
+    if let Some(f) = it.as_float() { pl.push(show_f64(f)); }
+    if let Some(b) = it.as_bool() { pl.push(format!("b:{b}")); }
+    if let Some(d) = it.as_datetime() { pl.push(show_datetime(d)); }
+    if let Some(a) = it.as_array() { pl.push(format!("n:{}", a.len())); }
+    format!("{}/{}/{}", us(it.type_name()), flags, plus_join(pl))
+}
+
+fn acc_value(v: &Value) -> String {
+    let mut s = value_head(v);
+    if let Some(a) = v.as_array() {
+        let mut parts = Vec::new();
+        for i in 0..a.len() {
+            if let Some(e) = a.get(i) {
+                parts.push(format!("{}@{}", acc_value(e), show_tn(a.get(i).map(|x| x.type_name()))));
+            }
+        }
+        s.push_str(&format!("[{}]", parts.join(",")));
+    }
+    if let Some(t) = v.as_inline_table() {
+        let parts: Vec<String> = t
+            .iter()
+            .map(|(k, e)| format!("{}={}@{}", hex(k.as_bytes()), acc_value(e), show_tn(t.get(k).map(|x| x.type_name()))))
+            .collect();
+        s.push_str(&format!("{{{}}}", parts.join(",")));
+    }
+    s
+}
+
+/// what `Item::get` answers for a key, asked four ways (str, String, &str, &String): they must agree
+fn get_key<'a>(it: &'a Item, k: &str) -> Option<&'a Item> {
+    let a = it.get(k);
+    let owned = k.to_string();
+    let b = it.get(owned.clone());
+    let c = it.get(&k);
+    let d = it.get(&owned);
+    let same = |x: Option<&Item>, y: Option<&Item>| match (x, y) {
+        (Some(p), Some(q)) => std::ptr::eq(p, q),
+        (None, None) => true,
+        _ => false,
+    };
+    assert!(same(a, b) && same(a, c) && same(a, d), "Item::get disagrees between str / String / &T");
+    a
+}
+
+fn acc_item(it: &Item) -> String {
+    let mut s = item_head(it);
+    if let Some(v) = it.as_value() {
+        s.push_str(&format!("V({})", acc_value(v)));
+    }
+    if let Some(t) = it.as_table() {
+        // the table-like view must hand out the same entries
+        let tl = it.as_table_like().expect("a table is table-like");
+        assert_eq!(tl.iter().count(), t.iter().count());
+        let parts: Vec<String> = t
+            .iter()
+            .map(|(k, child)| format!("{}={}@{}", hex(k.as_bytes()), acc_item(child), show_tn(get_key(it, k).map(|x| x.type_name()))))
+            .collect();
+        s.push_str(&format!("T{{{}}}", parts.join(",")));
+    }
+    if let Some(a) = it.as_array_of_tables() {
+        let mut parts = Vec::new();
+        for (i, _t) in a.iter().enumerate() {
+            let e = it.get(i);
+            let inner = match e {
+                Some(x) => acc_item(x),
+                None => "MISSING".into(),
+            };
+            parts.push(format!("{}@{}", inner, show_tn(e.map(|x| x.type_name()))));
+        }
+        s.push_str(&format!("A[{}]{}", parts.join(","), show_tn(it.get(a.len()).map(|x| x.type_name()))));
+    }
+    s
+}
+
+fn acc_item_indices(it: &Item) -> String {
+    match it.as_array() {
+        Some(a) => (0..=a.len()).map(|i| show_tn(it.get(i).map(|x| x.type_name()))).collect::<Vec<_>>().join(","),
+        None => "-".into(),
+    }
+}
+
+pub fn cmd_acc(args: &crate::Args) -> String {
+    let s = match std::str::from_utf8(&args[0]) {
+        Ok(s) => s,
+        Err(_) => return "not-utf8".into(),
+    };
+    match s.parse::<toml_edit::DocumentMut>() {
+        Ok(d) => {
+            let root = d.as_item();
+            let mut idx = Vec::new();
+            for (k, it) in d.as_table().iter() {
+                // Index<&str> for DocumentMut (panics on a missing key: these keys are present)
+                let via_doc: &Item = &d[k];
+                idx.push(format!("{}:{}", show_tn(Some(via_doc.type_name())), acc_item_indices(it)));
+            }
+            format!("ok acc={} idx={}", acc_item(root), plus_join(idx))
+        }
+        Err(_) => "err".into(),
+    }
+}
